@@ -44,6 +44,8 @@ func cmdGen(args []string) {
 				s = sizesScript(r, kind, tr, id, i)
 			case "card":
 				s = cardinalityScript(r, tr, id, i)
+			case "chain":
+				s = chainScript(r, tr, id, i)
 			case "stall":
 				if tr != "inproc" {
 					continue
@@ -65,6 +67,32 @@ func cmdGen(args []string) {
 			enc.Encode(s)
 		}
 	}
+}
+
+// chainScript: unary calls on one channel, one after the other, alternately
+// failing and succeeding, each started the moment the one before has returned;
+// over the in-memory HTTP transport the replies trickle in, so that whatever
+// a call leaves running behind it overlaps the next call.
+func chainScript(r *rand.Rand, tr, id string, i int) *Script {
+	s := &Script{ID: id, Kind: "unary", Tr: tr, Mode: "free", Seed: r.Int63(), ReqMD: true}
+	s.Calls = 4 + r.Intn(5)
+	s.Chain = true
+	s.Slow = tr == "httpmem"
+	s.MsgCls = []string{"medium", "medium", "fields", "maps", "small"}[i%5]
+	s.StCls = []string{statusClasses[r.Intn(len(statusClasses))]}
+	s.CR = []Op{{Name: "Invoke"}}
+	h := []Op{{Name: "Recv"}}
+	if r.Intn(2) == 0 {
+		h = append(h, Op{Name: "SetHeader"})
+	}
+	if r.Intn(2) == 0 {
+		h = append(h, Op{Name: "SetTrailer"})
+	}
+	h = append(h, Op{Name: "Return", Arg: 1, Arg2: 0})
+	s.H = number(h)
+	s.NHdr = maxArg(s.H, "SetHeader")
+	s.NTrl = maxArg(s.H, "SetTrailer")
+	return s
 }
 
 // sizesScript: cooperative half-duplex calls whose messages sweep the encoded
@@ -162,6 +190,8 @@ func cardinalityScript(r *rand.Rand, tr, id string, i int) *Script {
 		nr := 0
 		if nresp >= 1 {
 			nr = 1
+		} else if r.Intn(2) == 0 {
+			nr = 2 // no response, as a typed nil pointer
 		}
 		h = append(h, Op{Name: "Return", Arg: st, Arg2: nr})
 		s.Sched = []string{"cr", "h", "h"}
